@@ -1,8 +1,8 @@
 # C14 — concurrent requests are isolated and race-free
-import json, os, random, re, concurrent.futures
+import json, os, random, re, shutil, concurrent.futures
 
 FP = ["internal/closeonce:", "token/tokencache:", "server:Server.healthCheck", "server:Server.Close", "server:Server.openTokens", "signers:Signer.FlagsFromQuery",
-      "signers:FlagValues.mergeSet", "internal/signinit:", "server/daemon:", "lib/audit:Info.AppendTo", "@xtime/rate:"]
+      "signers:FlagValues.mergeSet", "internal/signinit:", "server/daemon:", "lib/audit:Info.AppendTo", "@xtime/rate:", "cmdline/servecmd:"]
 
 TOL_NS = 3_000_000     # clock granularity / goroutine wake-up tolerance for real-time oracles
 
@@ -78,6 +78,90 @@ def window_violation(times, rate, burst, slack_ops, intervals=None):
     return None
 
 
+# signals that ask `relic serve` to shut down (doc/: SIGINT / SIGTERM stop the server; SIGQUIT and SIGUSR2 are treated alike,
+# SIGUSR1 is "no longer used" and must not stop anything)
+SHUTDOWN_SIGNALS = (2, 3, 12, 15)
+SIGNAME = {2: "SIGINT", 3: "SIGQUIT", 10: "SIGUSR1", 12: "SIGUSR2", 15: "SIGTERM"}
+
+
+def proc_oracle(case):
+    """`relic serve` as a process: requests whose bodies were half sent when the signal(s) arrived. Written from the property text:
+    shutting the server down lets in-flight requests finish (response 200, signature over the full body of THAT request, one
+    audit record) and the server then goes away by itself. Returns [(key, message)]."""
+    bad = []
+    plan, reqs = case["plan"], case.get("reqs") or []
+    sigs = [g["sig"] for g in plan["signals"]]
+    nshut = sum(1 for g in sigs if g in SHUTDOWN_SIGNALS)
+    what = "relic serve, %d request(s) with half-sent bodies, %s" % (len(reqs), " then ".join(SIGNAME.get(g, str(g)) for g in sigs))
+    if plan.get("probe_ms") and sigs and sigs[0] == 10 and case.get("probe_result") != "ok":
+        bad.append(("C14:spec:sigusr1-stops-server", "%s: a /health request %d ms after SIGUSR1 (before any shutdown signal): %s" % (what, plan["probe_ms"], case.get("probe_result"))))
+    if nshut != 1:
+        return bad          # a second shutdown signal asks for the immediate exit; zero: nothing to check
+    failed = [r for r in reqs if not (r["status"] == 200 and r["verified"])]
+    if reqs and not case["alive_at_check"]:
+        dt = (case["exit_at"] - case["first_signal_at"]) / 1e6
+        bad.append(("C14:spec:shutdown-dropped-requests:process",
+                    "%s: the server process exited (status %s) %.0f ms after the first signal while the uploads were still in progress; %d of %d in-flight requests got no valid response (%s)"
+                    % (what, case["exit_code"], dt, len(failed), len(reqs), (failed[0]["err"] or failed[0]["verify_err"])[:160] if failed else "-")))
+    elif failed:
+        r = failed[0]
+        bad.append(("C14:spec:shutdown-dropped-requests:process",
+                    "%s: in-flight request %s was not allowed to finish: status %s %s %s" % (what, r["name"], r["status"], r["err"][:160], r["verify_err"][:120])))
+    lost = [r for r in reqs if r["status"] == 200 and r["verified"] and r["audited"] != 1]
+    if lost or case["audit_bad"]:
+        bad.append(("C14:spec:lost-audit-record:process", "%s: %d signature(s) returned without exactly one audit record (%s), %d unparsable / torn records"
+                    % (what, len(lost), [r["name"] for r in lost][:3], case["audit_bad"])))
+    if not case["exited"]:
+        bad.append(("C14:spec:shutdown-hang:process", "%s: the server process was still running 20 s after the last in-flight request had been answered" % what))
+    elif case["exit_code"] != 0 or case["exit_signal"]:
+        bad.append(("C14:spec:shutdown-exit-status:process", "%s: graceful shutdown ended with exit status %s (signal %s): %s" % (what, case["exit_code"], case["exit_signal"], case["stderr"][-200:])))
+    elif not reqs and case["exit_at"] - case["first_signal_at"] > 8e9:
+        bad.append(("C14:spec:shutdown-hang:process", "%s: an idle server took %.1f s to exit" % (what, (case["exit_at"] - case["first_signal_at"]) / 1e9)))
+    return bad
+
+
+def proc_schedule(case):
+    """the scenario as a schedule of the process model (C14.ModelProc via Run mode 6); returns (prefix, full, n): prefix ends
+    just before the second halves of the bodies are sent. Handlers: 0..nreq-1 in flight, then the probe, then the late connection."""
+    plan = case["plan"]
+    nreq = plan["nreq"]
+    probe = nreq if plan.get("probe_ms") else None
+    late = (nreq + (1 if probe is not None else 0)) if plan.get("late_conn") else None
+    n = nreq + (probe is not None) + (late is not None)
+    ev = [[5, 6]]                                   # main reaches the Wait in Serve, the watcher has installed its handler
+    for i in range(nreq):
+        ev += [[1, i], [1, i]]                      # accepted, reading its body
+    timeline, t = [], 0
+    for k, g in enumerate(plan["signals"]):
+        t += g["after_ms"] if k else 0
+        timeline.append((t, 0, [[2, g["sig"]], [3], [5, 12]]))       # 12 rounds: everything that can move has moved
+    if probe is not None:
+        timeline.append((plan["probe_ms"], 1, [[1, probe]] * 9))
+    if late is not None:
+        timeline.append((300, 1, [[1, late]]))
+    timeline.sort(key=lambda x: (x[0], x[1]))
+    cur = 0
+
+    def advance(to_ms):                             # the clock moves; whoever was waiting for it gets to look
+        nonlocal cur
+        out = [[4, (to_ms - cur) * 10**6], [5, 12]] if to_ms > cur else []
+        cur = max(cur, to_ms)
+        return out
+    for tm, _, evs in timeline:
+        if tm <= plan["complete_ms"] or not nreq:
+            ev += advance(tm) + evs
+    if nreq:
+        ev += advance(plan["complete_ms"])
+    prefix = list(ev)
+    for i in range(nreq):
+        ev += [[1, i]] * 9
+    for tm, _, evs in timeline:
+        if nreq and tm > plan["complete_ms"]:
+            ev += advance(tm) + evs
+    ev += [[5, 12]]
+    return [6, 1, n, prefix], [6, 1, n, ev], (probe, late)
+
+
 def run(ctx, replay=None):
     from vlib.common import run as sh, GOENV
     st = ctx.prepare(["C14_gen"], ["C14"], "C14.Run", drv_flags=["-race"])
@@ -87,16 +171,40 @@ def run(ctx, replay=None):
     rounds = 2 if ctx.tier == "quick" else 5
     races = 0
 
-    def drv(sub, seed, tag):
+    def drv(sub, seed, tag, extra=()):
         d = os.path.join(ctx.scratch, tag)
         os.makedirs(d, exist_ok=True)
-        rc, out, err, dt = sh([ctx.drv_path(), "-seed", str(seed), "-tier", ctx.tier, "-scratch", d, sub], timeout=1500, env=env)
+        rc, out, err, dt = sh([ctx.drv_path(), "-seed", str(seed), "-tier", ctx.tier, "-scratch", d, sub] + list(extra), timeout=1500, env=env)
         return sub, seed, rc, out, err, dt
+
+    relic_build_err = []
+
+    def proc_job():
+        """the REAL relic binary, built from the working tree, driven as `relic serve`"""
+        from vlib.common import BUILD, REPO, Lock
+        relic = os.path.join(BUILD, "relic")
+        mine = os.path.join(ctx.scratch, "relic-c14")
+        with Lock("relic_bin"):
+            rc, out, err, _ = sh(["go", "build", "-o", relic, "."], cwd=REPO, env=GOENV, timeout=1200)
+            if rc == 0:
+                shutil.copyfile(relic, mine)
+                os.chmod(mine, 0o755)
+        if rc != 0:
+            relic_build_err.append(err)
+            return "c14proc", ctx.seed, 0, "", "", 0.0
+        extra = [mine]
+        if replay:          # bin/check C14 --replay <file written by a C14:...:process violation>: run that scenario only
+            try:
+                if (json.load(open(replay)).get("case") or {}).get("kind") == "proc":
+                    extra.append(replay)
+            except (OSError, ValueError):
+                pass
+        return drv("c14proc", ctx.seed, "proc", extra)
 
     jobs = [("c14cache", ctx.seed, "cache"), ("c14rate", ctx.seed, "rate"), ("c14shut", ctx.seed, "shut"), ("c14ts", ctx.seed, "ts"), ("c14audit", ctx.seed, "audit")]
     results = {}
-    with concurrent.futures.ThreadPoolExecutor(max_workers=5) as ex:
-        futs = [ex.submit(drv, *j) for j in jobs]
+    with concurrent.futures.ThreadPoolExecutor(max_workers=6) as ex:
+        futs = [ex.submit(drv, *j) for j in jobs] + [ex.submit(proc_job)]
         daemon_runs = [drv("c14", ctx.seed * 100 + r, "drv%d" % r) for r in range(rounds)]   # the daemon rounds run one after another
         for f in futs:
             r = f.result()
@@ -161,6 +269,16 @@ def run(ctx, replay=None):
             ctx.violation("C14:spec:shutdown-hang", "daemon.Close took %d ms" % o["close_ms"], rp)
         if o["close_returned"] and o["last_response"] > o["close_returned"] + TOL_NS:
             ctx.violation("C14:spec:close-returned-early", "daemon.Close returned %.1f ms before the last in-flight response" % ((o["last_response"] - o["close_returned"]) / 1e6), rp)
+        if o.get("serve_returned") and o.get("last_recv") and o["last_recv"] > o["serve_returned"] + TOL_NS:
+            ctx.violation("C14:spec:serve-returned-early", "Daemon.Serve — what `relic serve` blocks on; the process exits when it returns — returned %.1f ms before the last response of a request "
+                          "that was in flight when daemon.Close was called had reached its client (half-sent bodies %d, slow token operations %d)"
+                          % ((o["last_recv"] - o["serve_returned"]) / 1e6, o["stalled"], o["slow_in_flight"]), rp)
+        closed_ats = [t["closed_at"] for t in (o["tokens"] or []) if t["closed_at"]]
+        # same process, same clock, and in the proved model the closing of the tokens happens before Serve's return (serve_returns_last):
+        # no tolerance. Not a failing input of the property text (no request is harmed), so reported without one.
+        if o.get("serve_returned") and closed_ats and max(closed_ats) > o["serve_returned"]:
+            ctx.violation("C14:correspondence-serve-return", "Daemon.Serve returned %.3f ms before the tokens were closed: server.Close had not run when `relic serve` would have exited (theorem serve_returns_last)"
+                          % ((max(closed_ats) - o["serve_returned"]) / 1e6), dict(rp, broken="C14.ModelProc"), False)
         late_pings = 0
         for t in (o["tokens"] or []):
             t["ops"] = t["ops"] or []
@@ -284,6 +402,27 @@ def run(ctx, replay=None):
         if cs["distinct_instances"] != 1 or cs["errors"] or cs["nil_without_error"]:
             ctx.violation("C14:spec:timestamper-not-shared-once", "concurrent GetTimestamper: %d distinct instances, %d errors, %d nil-without-error" % (cs["distinct_instances"], cs["errors"], cs["nil_without_error"]), {"case": cs})
 
+    # ---------------------------------------------------------------- the process: `relic serve`, signals, exit
+    if relic_build_err:
+        ctx.violation("C14:relic-build", "the relic binary does not build: " + relic_build_err[0][-300:], {"stderr": relic_build_err[0][-3000:]}, False)
+        proc_cases = []
+    else:
+        proc_cases = [c for c in lines_of(results["c14proc"]) if c.get("kind") == "proc"]
+    proc_samples = []
+    for cs in proc_cases:
+        n_eval += 1 + len(cs.get("reqs") or [])
+        distinct += 1
+        if cs["start_err"]:
+            ctx.violation("C14:driver-crash:c14proc:start", "relic serve did not come up for scenario %s: %s %s" % (cs["plan"]["name"], cs["start_err"], cs["stderr"][-200:]), {"case": cs}, False)
+            continue
+        for key, msg in proc_oracle(cs):
+            ctx.violation(key, msg, {"case": cs, "how_to_replay": "bin/check C14 --replay <this file> (runs this scenario against the relic binary built from the tree)"})
+        sigs = [g["sig"] for g in cs["plan"]["signals"]]
+        if sum(1 for g in sigs if g in SHUTDOWN_SIGNALS) >= 2 and cs.get("reqs"):
+            witnesses["second_signal_cuts_inflight_on_real_code"] = (not cs["alive_at_check"]) and all(r["status"] != 200 for r in cs["reqs"]) and cs["exit_code"] == 0
+        proc_samples.append({"scenario": cs["plan"]["name"], "signals": sigs, "in_flight": len(cs.get("reqs") or []), "answered_200_verified": sum(1 for r in cs.get("reqs") or [] if r["status"] == 200 and r["verified"]),
+                             "alive_before_completion": cs["alive_at_check"], "exit_code": cs["exit_code"], "exit_ms_after_first_signal": round((cs["exit_at"] - cs["first_signal_at"]) / 1e6), "audit_lines": cs["audit_lines"]})
+
     # ---------------------------------------------------------------- model correspondence
     n_model = 0
     if st["model_ok"]:
@@ -376,6 +515,63 @@ def run(ctx, replay=None):
             if (not forced and not clean) or not noping or len(lines) != nl_done or str(rest) != "" or (returned and not closed):
                 ctx.violation("C14:correspondence-model", "shutdown/audit machine contradicts its specification on %s: %s" % (v, m), {"case": v, "model": m, "broken": "C14.ModelShut"}, False)
                 break
+        # (c') the process machine on the scenarios the real `relic serve` was driven through: who is answered, who is cut, whether
+        # the process is still there before the uploads complete, how it exits
+        keep, vals = [], []
+        for cs in proc_cases:
+            if cs["start_err"]:
+                continue
+            pre, full, idx = proc_schedule(cs)
+            keep.append((cs, idx))
+            vals += [pre, full]
+        outs = ctx.run_model(vals) if vals else []
+        for k, (cs, (probe, late)) in enumerate(keep):
+            n_model += 2
+            mpre, mfull = outs[2 * k], outs[2 * k + 1]
+            reqs = cs.get("reqs") or []
+            real = {"alive_before_completion": cs["alive_at_check"] if reqs else None, "exited": cs["exited"],
+                    "exit_code": (-cs["exit_signal"] if cs["exit_signal"] else cs["exit_code"]) if cs["exited"] else None,
+                    "answered": [r["status"] == 200 and r["verified"] for r in reqs],
+                    "probe_ok": (cs["probe_result"] == "ok") if probe is not None else None, "late_refused": cs["late_conn_result"].startswith("refused") if late is not None else None}
+            flags, codes = mfull[0], mfull[1]
+            model = {"alive_before_completion": bool(mpre[0][0]) if reqs else None, "exited": not flags[0], "exit_code": flags[2] if not flags[0] else None,
+                     "answered": [codes[i] == 2 for i in range(len(reqs))],
+                     "probe_ok": (codes[probe] == 2) if probe is not None else None, "late_refused": (codes[late] == 1 or (codes[late] == 0 and not flags[0])) if late is not None else None}    # nothing listens once the process is gone
+            if real != model:
+                ctx.violation("C14:correspondence-process", "process model (programs translated from serveCmd / Daemon.Serve / Daemon.Close / watchSignals) and the real `relic serve` disagree on scenario %s: model %s, real %s"
+                              % (cs["plan"]["name"], model, real), {"case": cs, "model": [mpre, mfull], "broken": "C14.ModelProc"}, False)
+                break
+            # the model's own verdict must agree with the model-free oracle: spec_ok unless the exit was forced
+            one_shutdown = sum(1 for g in cs["plan"]["signals"] if g["sig"] in SHUTDOWN_SIGNALS) == 1
+            if one_shutdown and not flags[3] and bool(flags[6]) != (not [1 for key, _ in proc_oracle(cs) if "dropped" in key]):
+                ctx.violation("C14:correspondence-process", "process model's spec_ok=%s contradicts the oracle on scenario %s" % (flags[6], cs["plan"]["name"]), {"case": cs, "model": [mpre, mfull], "broken": "C14.ModelProc"}, False)
+                break
+        # random schedules of the process machine: the proved statement evaluated (spec_ok unless forced)
+        vals = []
+        for _ in range(150):
+            n = rnd.randint(0, 3)
+            evs = []
+            for _ in range(rnd.randint(5, 70)):
+                x = rnd.random()
+                if x < 0.45:
+                    evs.append([0, rnd.randrange(8)])
+                elif x < 0.75 and n:
+                    evs.append([1, rnd.randrange(n)])
+                elif x < 0.82:
+                    evs.append([2, rnd.choice([2, 15, 15, 3, 10, 12])])
+                elif x < 0.92:
+                    evs.append([3])
+                elif x < 0.95:
+                    evs.append([4, rnd.choice([1, 10**9, 3 * 10**11])])
+                else:
+                    evs.append([5, rnd.randint(1, 3)])
+            vals.append([6, rnd.randint(1, 2), n, evs])
+        for v, m in zip(vals, ctx.run_model(vals)):
+            n_model += 1
+            alive, how, code, forced, tokc, closing, spec = m[0]
+            if (not forced and not spec) or (not alive and how == 1 and (code != 0 or not tokc or not closing)):
+                ctx.violation("C14:correspondence-model", "process machine contradicts its specification on %s: %s" % (v, m), {"case": v, "model": m, "broken": "C14.ModelProc"}, False)
+                break
         vals = []
         for _ in range(60):
             n = rnd.randint(1, 5)
@@ -399,12 +595,15 @@ def run(ctx, replay=None):
         "the Coq models cover the interleaving of atomic steps (mutex sections, clock reads, single O_APPEND writes) only",
         "refuted in the model, with witnesses (documented, no finding keys): strict window bound under clock-reading inversion (rl_strict_bound_refuted; replayed on the real x/time/rate with explicit times), "
         "progress of tokencache.NewLimiter called directly with rate <= 0 (rl_progress_refuted_nonpositive_rate; replayed; the server only builds a limiter for rate > 0), "
-        "tokens closed under a handler that outlives the 5 min grace period (shutdown_grace_period_refuted; not replayed: needs > 5 min)"], FP)
+        "tokens closed under a handler that outlives the 5 min grace period (shutdown_grace_period_refuted, proc_grace_period_refuted; not replayed: needs > 5 min), "
+        "a second shutdown signal makes watchSignals call os.Exit under a running handler (second_signal_refuted; replayed on the real binary: documented 'shutting down immediately'), "
+        "a signal between `go watchSignals(srv)` and its signal.Notify ends the process by default action (signal_before_notify_refuted; not replayed: a window of microseconds at start-up), "
+        "Daemon.Close calling Shutdown outside the errgroup lets main return under a running handler (close_outside_group_refuted: the variant, not the code)"], FP)
     cov.update({"evaluations": n_eval + n_model, "distinct_nontrivial": distinct,
                 "rule": "daemon rounds: baseline (isolated / sequence / overlap on the timestamping key) + burst + pause > cache expiry + burst with shutdown while half-sent bodies and slow token operations are in flight; "
-                        "distinct = completed 2xx requests (each verified against its own request) + cache / limiter cases; evaluations add every lookup, reservation and model case",
+                        "distinct = completed 2xx requests (each verified against its own request) + cache / limiter cases + `relic serve` process scenarios; evaluations add every lookup, reservation and model case",
                 "samples": samples[:2] + [{"cache_seq_cases": len(seq_cases), "cache_conc_cases": len(conc_cases), "cache_lookups": n_cache_ops,
-                                           "limiter_cases": len(rate_cases), "model_cases": n_model}],
+                                           "limiter_cases": len(rate_cases), "model_cases": n_model}] + proc_samples[:12],
                 "race_reports": races, "model_cases": n_model, "witness_replays": witnesses})
     return ctx.finish("proof", cov, ["race detector is dynamic: only races exercised by these runs are seen", "runtime (scheduler, memory model, net/http) not modelled",
                                      "x/time/rate is modelled in exact integer arithmetic (token-units per ns); float64 rounding is covered by the differential run only",
